@@ -155,7 +155,7 @@ Aux:
 				// ignore
 			default:
 				if !ss.Bound(Symbol(ad.Name)) {
-					ss.Let(Symbol(ad.Name), ad.Default)
+					ss.Let(Symbol(ad.Name), defaultValue(ss, ad.Default, depth))
 				}
 			}
 		case restMode:
@@ -176,7 +176,7 @@ Aux:
 			if AmpAux == asym {
 				mode = auxMode
 			} else if !ss.Bound(asym) {
-				ss.Let(asym, ad.Default)
+				ss.Let(asym, defaultValue(ss, ad.Default, depth))
 			}
 		case auxMode:
 			val := ad.Default
@@ -188,6 +188,22 @@ Aux:
 		}
 	}
 	return lam.BoundCall(ss, depth)
+}
+
+// defaultValue evaluates the default form of an &optional or &key parameter
+// that was not supplied. The scope is the one being built for the call so the
+// form can refer to the parameters before it.
+func defaultValue(ss *Scope, form Object, depth int) Object {
+	if list, ok := form.(List); ok {
+		if len(list) == 0 {
+			return nil
+		}
+		form = ListToFunc(ss, list, depth+1)
+	}
+	if form == nil {
+		return nil
+	}
+	return ss.Eval(form, depth+1)
 }
 
 // BoundCall the the function with the bindings provided.
